@@ -422,8 +422,8 @@ def run(chk):
     scases = CP.site_stream(mmv, pkg, single_optional=(chk.tier != "quick")) + CP.sys_cases(mmv, pkg)
     if chk.tier == "quick":
         scases = [c for i, c in enumerate(scases) if c.get("kind") != "valid-sys" or i % 2 == 0]
-    cfgs = ["", "nodetail", "detail", "user", "third"]
-    with cf.ThreadPoolExecutor(5) as ex:
+    cfgs = ["", "nodetail", "detail", "user", "user-omit", "third", "after-foreign"]
+    with cf.ThreadPoolExecutor(7) as ex:
         cres = list(ex.map(lambda g: CS.real_run(scases, cfg=g or None)["results"], cfgs))
     cfg_bad = None
     for g, res in zip(cfgs[1:], cres[1:]):
